@@ -698,6 +698,8 @@ model('.max', 'numpy.max', 'numpy.amax')(_extreme(False))
 
 @model('builtins.min')
 def _bmin(ex, st, args, kwargs, node):
+    if 'key' in kwargs and len(args) == 1:
+        return _keyed_extreme(ex, st, args, kwargs, node, True)
     if len(args) == 1:
         return _extreme(True)(ex, st, args, kwargs, node)
     r = args[0]
@@ -706,8 +708,38 @@ def _bmin(ex, st, args, kwargs, node):
     return r
 
 
+def _keyed_extreme(ex, st, args, kwargs, node, is_min):
+    """max(seq, key=f) / min(seq, key=f) over a sequence of concrete length: the FIRST element whose key is extreme
+    (CPython keeps the earlier element on ties); symbolic key comparisons split the path"""
+    key = kwargs['key']
+    lo, hi, elem = ex.iter_value(args[0], st, node)
+    clo, chi = conc_int(lo), conc_int(hi)
+    if clo is None or chi is None:
+        raise Unsupported('max/min with key over a sequence of symbolic length')
+    items = [elem(k, st) if elem else k for k in range(clo, chi)]
+    if not items:
+        if 'default' in kwargs:
+            return kwargs['default']
+        from .engine import _Raise, ExcV
+        raise _Raise(st, ExcV('ValueError', getattr(node, 'lineno', 0)))
+    best = items[0]
+    kb = ex.call(key, [best], {}, st, node)
+    for x in items[1:]:
+        kx = ex.call(key, [x], {}, st, node)
+        cond = ex.truth((kx < kb) if is_min else (kx > kb), st)
+        if cond is not True and cond is not False:
+            ch = ex.decide([True, False])
+            st.assume(cond if ch else z3.Not(cond))
+            cond = ch
+        if cond:
+            best, kb = x, kx
+    return best
+
+
 @model('builtins.max')
 def _bmax(ex, st, args, kwargs, node):
+    if 'key' in kwargs and len(args) == 1:
+        return _keyed_extreme(ex, st, args, kwargs, node, False)
     if len(args) == 1:
         return _extreme(False)(ex, st, args, kwargs, node)
     r = args[0]
@@ -1145,6 +1177,7 @@ def _int(ex, st, args, kwargs, node):
         # every term that later depends on the result
         k = ex.c.fresh('int', INT)
         st.assume(k == z3.If(v >= 0, z3.ToInt(v), -z3.ToInt(-v)))
+        st.trace.append(('ghost', ('int', k, v)))        # witness: the named result and what was truncated
         return k
     raise Unsupported('int(%r)' % (v,))
 
@@ -1399,6 +1432,9 @@ def str_method(ex, st, s, name, args, kwargs, node):
         if args and isinstance(args[0], Ref) and isinstance(st.get(args[0]), PyList) and all(isinstance(x, str) for x in st.get(args[0]).items):
             return s.join(st.get(args[0]).items)
         return '<joined>'
+    if name == 'decode':           # str has no decode(): AttributeError (callers that accept bytes or str rely on it)
+        from .engine import _Raise, ExcV
+        raise _Raise(st, ExcV('AttributeError', getattr(node, 'lineno', 0)))
     raise Unsupported('str.%s' % name)
 
 
